@@ -194,6 +194,20 @@ class Cache:
             self._norm_cased_files[norm_cased_filename] = None
             self._rebuilt_files.add(filename)
 
+    def cancel_building_file(self, filename):
+        """Undo a call to ``start_building_file``.
+
+        This is for the case where we are unable to start building the
+        file after all, due to an exception.
+
+        Arguments:
+            filename (str): The non-norm-cased filename.
+        """
+        with self._files_lock:
+            self._files.pop(filename, None)
+            self._norm_cased_files.pop(os.path.normcase(filename), None)
+            self._rebuilt_files.discard(filename)
+
     def rebuilt_file(self, filename):
         """Return whether we called ``start_building_file`` on the file.
 
